@@ -91,14 +91,9 @@ func observeSet(s sets.Set[int], probe []int) Ev {
 		if b, err := t.ToJSON(); err == nil {
 			json.Unmarshal(b, &jvals)
 		}
-	case floatSet: // TreeSet made by New() with float elements
+	case dfltSetWalker: // TreeSet made by New(), elements of some ordered type behind int codes (fam_dflt.go)
 		ordered = true
-		ft := t.s.(*treeset.Set[float64])
-		it := ft.Iterator()
-		for i := 0; it.Next() && i < 1<<20; i++ {
-			iter = append(iter, encF(it.Value()))
-		}
-		ft.Each(func(i int, v float64) { each = append(each, encF(v)) })
+		iter, each = t.walk()
 		jvals = append(jvals, iter...)
 	}
 	o["iter"], o["each"], o["jvals"], o["ordered"] = iter, each, ints(jvals), ordered
@@ -145,8 +140,11 @@ type setUniverse struct {
 }
 
 func (u *setUniverse) New() Inst {
-	if u.cmpF == nil && u.cmp != "dflt" {
+	if u.cmpF == nil && !isDflt(u.cmp) {
 		u.cmpF = cmpInt(u.cmp)
+	}
+	if isDflt(u.cmp) {
+		curDfltSet = u.cmp
 	}
 	var probe []int
 	for v := -1; v <= u.n; v++ {
@@ -170,7 +168,7 @@ func (u *setUniverse) Calls(x Inst) []Call {
 	cs = append(cs, Call{Op: "Remove", Vs: []int{u.n}}, Call{Op: "Contains", Vs: []int{1, u.n}}, Call{Op: "Remove", Vs: []int{-1}},
 		Call{Op: "Clear"}, Call{Op: "Values"}, Call{Op: "Size"}, Call{Op: "Empty"}, Call{Op: "String"},
 		Call{Op: "New", Vs: []int{2, 0, 2}}, Call{Op: "New", Vs: []int{}})
-	if u.cmp == "dflt" {
+	if isDflt(u.cmp) {
 		return cs
 	}
 	cs = append(cs, Call{Op: "FromJSON", Vs: []int{}}, Call{Op: "FromJSON", Vs: []int{2, 0, 2, 1}},
@@ -318,6 +316,21 @@ func bigAlgPairs() [][2][]int {
 		{everyOther(0, 40), everyOther(1, 41)}, {everyOther(1, 41), everyOther(0, 40)}, {everyOther(0, 40), everyOther(9, 29)}}
 }
 
+// operands of hundreds and thousands of members: similar sizes, one twice the other, an element of b beyond max(a), nested,
+// disjoint, identical; under the many-to-one comparator the members 2k / 2k+1 collapse
+func hugeAlgPairs(quick bool) [][2][]int {
+	ps := [][2][]int{{rangeInts(0, 400), rangeInts(200, 601)}, {rangeInts(200, 601), rangeInts(0, 400)}, {rangeInts(0, 300), rangeInts(300, 600)},
+		{rangeInts(600, 0), rangeInts(100, 500)}, {everyOther(0, 1200), everyOther(1, 1201)}, {rangeInts(0, 520), rangeInts(0, 520)},
+		{rangeInts(0, 1100), rangeInts(1000, 1030)}, {rangeInts(1000, 1030), rangeInts(0, 1100)}}
+	if !quick {
+		ps = append(ps, [2][]int{rangeInts(0, 4500), rangeInts(2000, 9001)}, [2][]int{rangeInts(9000, 1999), rangeInts(0, 4500)},
+			[2][]int{rangeInts(0, 70000), rangeInts(69990, 70010)})
+	} else {
+		ps = append(ps, [2][]int{rangeInts(0, 4200), rangeInts(100, 4301)})
+	}
+	return ps
+}
+
 func everyOther(a, b int) []int {
 	var out []int
 	for i := a; i < b; i += 2 {
@@ -342,7 +355,12 @@ func jobAlg(j *jobCtx) {
 	for _, bp := range bigAlgPairs() {
 		subs = append(subs, bp[0], bp[1])
 	}
+	nbig := len(subs)
+	for _, bp := range hugeAlgPairs(j.quick()) {
+		subs = append(subs, bp[0], bp[1])
+	}
 	bigProbe := rangeInts(-1, 48)
+	hugeProbe := []int{-1, 0, 1, 2, 199, 200, 299, 300, 399, 400, 401, 599, 600, 601, 1199, 1200, 4300, 4301, 70009, 70010}
 	for _, c := range cfgs {
 		if !j.want(c.kind) {
 			continue
@@ -360,18 +378,22 @@ func jobAlg(j *jobCtx) {
 				if ai >= nsmall {
 					probe, n = bigProbe, 46
 				}
+				huge := ai >= nbig
+				if huge {
+					probe, n = hugeProbe, 70010
+				}
 				for _, op := range []string{"Intersection", "Union", "Difference"} {
 					for _, alias := range []bool{false, true} {
 						if alias && ai != bi {
 							continue
 						}
-						viaRemove := (ai+bi)%2 == 1
+						viaRemove := (ai+bi)%2 == 1 && !huge
 						var a, b sets.Set[int]
 						gi := guard("alg", c.kind, "Build", func() {
 							a = buildSet(c.kind, f, am, viaRemove, n)
 							b = a
 							if !alias {
-								b = buildSet(c.kind, f, bm, !viaRemove, n)
+								b = buildSet(c.kind, f, bm, !viaRemove && !huge, n)
 							}
 						})
 						if gi.Panic || a == nil || b == nil {
@@ -398,7 +420,10 @@ func jobAlg(j *jobCtx) {
 						muts := []Ev{}
 						objs := []sets.Set[int]{a, b, r}
 						for who := 0; who < 3; who++ {
-							for _, m := range []Call{{Op: "Add", Vs: []int{n + 1}}, {Op: "Remove", Vs: []int{1, 2}}, {Op: "Clear"}} {
+							for mi, m := range []Call{{Op: "Add", Vs: []int{n + 1}}, {Op: "Remove", Vs: []int{1, 2}}, {Op: "Clear"}} {
+								if huge && mi != who { // three observations of three huge sets per mutation: one mutation per object
+									continue
+								}
 								mi := invoke(e, func() {
 									switch m.Op {
 									case "Add":
@@ -429,6 +454,7 @@ func jobAlg(j *jobCtx) {
 type heapInst struct {
 	kind string
 	cmp  string
+	lite bool // scale scripts: the iterator walk and String() (each as costly as Values()) in every 8th size only
 	h    *binaryheap.Heap[PE]
 	q    *priorityqueue.Queue[PE]
 }
@@ -476,21 +502,36 @@ func (x *heapInst) Observe() Ev {
 	var pv PE
 	var pok bool
 	if x.h != nil {
-		vals, size, empty, name = x.h.Values(), x.h.Size(), x.h.Empty(), firstLine(x.h.String())
+		size = x.h.Size()
+	} else {
+		size = x.q.Size()
+	}
+	full := !x.lite || size%8 == 0
+	if x.h != nil {
+		vals, empty = x.h.Values(), x.h.Empty()
 		pv, pok = x.h.Peek()
-		it := x.h.Iterator()
-		for i := 0; it.Next() && i < 1<<20; i++ {
-			iter = append(iter, it.Value())
+		if full {
+			name = firstLine(x.h.String())
+			it := x.h.Iterator()
+			for i := 0; it.Next() && i < 1<<20; i++ {
+				iter = append(iter, it.Value())
+			}
 		}
 	} else {
-		vals, size, empty, name = x.q.Values(), x.q.Size(), x.q.Empty(), firstLine(x.q.String())
+		vals, empty = x.q.Values(), x.q.Empty()
 		pv, pok = x.q.Peek()
-		it := x.q.Iterator()
-		for i := 0; it.Next() && i < 1<<20; i++ {
-			iter = append(iter, it.Value())
+		if full {
+			name = firstLine(x.q.String())
+			it := x.q.Iterator()
+			for i := 0; it.Next() && i < 1<<20; i++ {
+				iter = append(iter, it.Value())
+			}
 		}
 	}
-	return Ev{"vals": pes(vals), "size": size, "empty": empty, "name": name, "peek": []any{pv, pok}, "iter": pes(iter)}
+	if !full {
+		name = map[string]string{"binaryheap": "BinaryHeap", "priorityqueue": "PriorityQueue"}[x.kind]
+	}
+	return Ev{"vals": pes(vals), "size": size, "empty": empty, "name": name, "peek": []any{pv, pok}, "iter": pes(iter), "hasiter": full}
 }
 
 func pesOf(c Call) []PE {
